@@ -189,6 +189,23 @@ def build(tree):
         else:
             f = lambda o: getattr(o, name)(k)  # noqa: E731
         return build(tree[4]).umap(f)
+    if t == "unc":
+        # a custom operator combining RollOutcome operations in several steps: lambda o: step_n(... step_1(o))
+        steps = tree[1]
+
+        def custom(o):
+            for code, k, side in steps:
+                if side == 2:
+                    o = UN[code](o)
+                else:
+                    name = BIN[code][0]
+                    if name in BIN_PY:
+                        o = BIN_PY[name](o, k) if side == 0 else BIN_PY[name](k, o)
+                    else:
+                        o = getattr(o, name)(k)
+            return o
+
+        return build(tree[2]).umap(custom)
     if t == "filt":
         p = pred_fn(tree[1], tree[2])
         if len(tree[3]) == 1 and len(repr(tree)) % 2:
@@ -269,6 +286,11 @@ def tokens(tree):
         return ["9", str(tree[1]), str(tree[2])] + tokens(tree[3]) + ["1" if tree[4] else "0", str(tree[5])] + tokens(tree[6])
     if t == "unb":
         return ["11", str(tree[1]), str(tree[2]), str(tree[3])] + tokens(tree[4])
+    if t == "unc":
+        out = ["12", str(len(tree[1]))]
+        for code, k, side in tree[1]:
+            out += [str(code), str(k), str(side)]
+        return out + tokens(tree[2])
     if t == "substmap":
         return ["10", str(tree[1]), str(tree[2]), str(tree[3]), str(tree[4]), str(tree[5])] + tokens(tree[6])
     raise KeyError(t)
@@ -363,6 +385,13 @@ def denote(tree, budget=None):
     if t == "un":
         f = UN_INT[tree[1]]
         return push(denote(tree[2]), lambda k: (f(sum(k)),))
+    if t == "unc":
+        def run(v):
+            for code, k, side in tree[1]:
+                v = UN_INT[code](v) if side == 2 else (BIN_INT[code](v, k) if side == 0 else BIN_INT[code](k, v))
+            return v
+
+        return push(denote(tree[2]), lambda v: (run(sum(v)),))
     if t == "unb":
         f, k, side = BIN_INT[tree[1]], tree[2], tree[3]
         return push(denote(tree[4]), lambda v: (f(sum(v), k) if side == 0 else f(k, sum(v)),))
@@ -449,6 +478,15 @@ def rand_tree(rnd, size):
             right = ["val", rnd.choice([-3, -2, -1, 1, 2, 3])]  # otherwise: kept only if the divisor is never 0 (denote raises)
         return ["bin", op, rand_tree(rnd, (size - 1) // 2), right]
     if r < 0.58:
+        if rnd.random() < 0.3:
+            steps = []
+            for _ in range(rnd.randint(2, 4)):
+                if rnd.random() < 0.3:
+                    steps.append([rnd.choice([0, 1, 2, 3]), 0, 2])
+                else:
+                    op = rnd.choice([0, 1, 2, 3, 5, 9, 10, 11, 12, 13])  # + - * lt ge le gt & | ^ : total on the integers
+                    steps.append([op, rnd.randint(-2, 4), rnd.randint(0, 1) if BIN[op][0] in BIN_PY else 0])
+            return ["unc", steps, rand_tree(rnd, size - 1)]
         if rnd.random() < 0.4:
             op = rnd.choice(list(BIN))
             name = BIN[op][0]
@@ -490,6 +528,8 @@ def fix_selections(rnd, tree):
         return ["un", tree[1], fix_selections(rnd, tree[2])]
     if t == "unb":
         return tree[:4] + [fix_selections(rnd, tree[4])]
+    if t == "unc":
+        return ["unc", tree[1], fix_selections(rnd, tree[2])]
     if t == "filt":
         return ["filt", tree[1], tree[2], [fix_selections(rnd, s) for s in tree[3]]]
     if t == "subst":
@@ -520,7 +560,7 @@ def unit_counts(tree):
             for x in tree]
 
 
-KINDS = ("val", "valh", "valp", "pool", "rep", "bin", "un", "unb", "filt", "sel", "subst", "substmap")
+KINDS = ("val", "valh", "valp", "pool", "rep", "bin", "un", "unb", "unc", "filt", "sel", "subst", "substmap")
 
 
 def count_paths(tree):
